@@ -375,3 +375,210 @@ def _tup(t):
 def from_obj(o):
     return X.Body(o["name"], o["ent"], list(o["ints"]), list(o["bools"]), [(n, ty, _tup(t)) for n, ty, t in o["derived"]],
                   [(lab, _tup(t)) for lab, t in o["rules"]], o.get("broad", False))
+
+
+# ---------------------------------------------------------------------------------------------------------------------
+# FUNCTIONs: the statement translator (FUNCPrint, STATEMENTPrint, CASEout, LOOPpyout).  Oracle only: the value of every
+# call = the value vlib/func_gen_py18.run gives (ISO 10303-11 clause 13); no Lean model of statements.
+
+from vlib import func_gen_py18 as F
+
+FHARNESS = os.path.join(VERIF, "harness", "h_pyfunc.py")
+FCLASSES = {"keyword-parameter": "func-compile:keyword-parameter", "local-initializer": "func-value:local-initializer-dropped",
+            "repeat-increment": "func-value:repeat-bound-exclusive", "skip": "func-value:skip-is-break",
+            "repeat-increment-while": "func-value:repeat-while-does-not-end-loop"}
+FPRIORITY = ["keyword-parameter", "local-initializer", "skip", "repeat-increment-while", "repeat-increment"]
+
+
+def run_func_impl(b, work, f, args):
+    m = F.Module("m_" + f.name, [f])
+    d = os.path.join(work, "func_" + f.name)
+    os.makedirs(d, exist_ok=True)
+    for x in os.listdir(d):
+        os.unlink(os.path.join(d, x))
+    open(os.path.join(d, m.name + ".exp"), "w").write(m.express())
+    try:
+        r = subprocess.run([b.tool("exp2python"), m.name + ".exp"], cwd=d, env=b.env(), capture_output=True, text=True, timeout=TOOL_TIMEOUT)
+    except subprocess.TimeoutExpired:
+        return {"status": "tool-timeout", "msg": f"no return within {TOOL_TIMEOUT} s"}
+    if r.returncode != 0 or not os.path.exists(os.path.join(d, m.name + ".py")):
+        return {"status": "exit-status", "msg": f"exp2python exited {r.returncode}: {r.stderr[-200:]!r}"}
+    json.dump({"funcs": [{"name": f.name, "args": args}]}, open(os.path.join(d, "spec.json"), "w"))
+    env = dict(os.environ); env["VERIF_REPO"] = B.REPO
+    h = subprocess.run([sys.executable, "-B", FHARNESS, d, m.name, os.path.join(d, "spec.json")], capture_output=True, text=True, env=env, timeout=300)
+    try:
+        return json.loads(h.stdout)
+    except Exception:
+        return {"status": "harness-died", "msg": h.stderr[-300:]}
+
+
+def func_oracle(f, args, impl):
+    if impl["status"] != "ok":
+        return ("func-" + impl["status"], f"{impl['status']}: {impl.get('msg', '')[:240]}")
+    for a, got in zip(args, impl["values"][f.name]):
+        try:
+            want = F.run(f, a)
+        except F.Budget:
+            continue
+        if got != want:
+            return ("func-value", f"{f.name}({', '.join(map(str, a))}): the emitted function gives {got}, EXPRESS gives {want}")
+    return None
+
+
+def func_class(o, f):
+    fe = F.features(f)
+    if o[0] == "func-compile-error" and "keyword-parameter" in fe:
+        return FCLASSES["keyword-parameter"]
+    if o[0] == "func-value":
+        for k in FPRIORITY[1:]:
+            if k in fe:
+                return FCLASSES[k]
+    return o[0] + ":" + f.express()
+
+
+def func_candidates(f):
+    """smaller functions: drop a statement, replace a compound statement by its body, drop an unused local's initialiser"""
+    def rewrite(stmts):
+        for i, s in enumerate(stmts):
+            if s[0] != "return":
+                yield stmts[:i] + stmts[i + 1:]
+            k = s[0]
+            if k == "if":
+                yield stmts[:i] + s[2] + stmts[i + 1:]
+                if s[3] is not None:
+                    yield stmts[:i] + s[3] + stmts[i + 1:]
+                    yield stmts[:i] + [("if", s[1], s[2], None)] + stmts[i + 1:]
+                for b in rewrite(s[2]):
+                    yield stmts[:i] + [("if", s[1], b, s[3])] + stmts[i + 1:]
+                if s[3] is not None:
+                    for b in rewrite(s[3]):
+                        yield stmts[:i] + [("if", s[1], s[2], b)] + stmts[i + 1:]
+            elif k == "for":
+                if s[5] is not None:
+                    yield stmts[:i] + [s[:5] + (None,) + s[6:]] + stmts[i + 1:]
+                if s[6] is not None:
+                    yield stmts[:i] + [s[:6] + (None,) + s[7:]] + stmts[i + 1:]
+                for b in rewrite(s[7]):
+                    if b:
+                        yield stmts[:i] + [s[:7] + (b,)] + stmts[i + 1:]
+            elif k in ("while", "until"):
+                for b in rewrite(s[3]):
+                    if b:
+                        yield stmts[:i] + [s[:3] + (b,)] + stmts[i + 1:]
+            elif k == "begin":
+                yield stmts[:i] + s[1] + stmts[i + 1:]
+            elif k == "case":
+                yield stmts[:i] + [a for _, a in s[2]] + stmts[i + 1:]
+    for body in rewrite(f.body):
+        if any(s[0] in ("skip", "escape") for s in body):       # SKIP / ESCAPE must stay inside a loop
+            continue
+        c = f.copy(); c.body = body
+        yield c
+    for i, (n, init) in enumerate(f.locals):
+        if init is not None and init[0] != "i":
+            c = f.copy(); c.locals = f.locals[:i] + [(n, ("i", 1))] + f.locals[i + 1:]
+            yield c
+
+
+def func_valid(f):
+    """every variable read has been given a value on the reference's path for small arguments"""
+    try:
+        for a in ([0] * len(f.params), [3] * len(f.params), [1, 4][:len(f.params)] if len(f.params) > 1 else [2]):
+            if F.run(f, a) is None:
+                return False
+    except F.Budget:
+        return True
+    except Exception:
+        return False
+    return True
+
+
+def range_correspondence(ctx, exe, funcs, args_of, res):
+    """the probes f_seq<k>: the digits of the emitted function's result are the values its loop variable took; they must be
+    the Lean model's `pyRange … (stopWritten …)`, and the reference interpreter must agree with the Lean specification"""
+    probes = [(f, im) for f, (o, im) in zip(funcs, res) if f.name.startswith("f_seq") and im.get("status") == "ok"]
+    lines, where = [], []
+    for f, im in probes:
+        step = next(s for s in f.body if s[0] == "for")[4] or 1
+        for a, got in zip(args_of[id(f)], im["values"][f.name]):
+            lines.append(f"range {a[0]} {a[1]} {step}"); where.append((f, a, got))
+    if not lines:
+        return
+    enc = lambda line: int("".join(str(int(v) + 1) for v in line[len("values="):].split(",") if v) or "0")
+    model, spec = run_lean(exe, "model", lines), run_lean(exe, "spec", lines)
+    for (f, a, got), m, sp, ln in zip(where, model, spec, lines):
+        if got != enc(m) and not any(x[0].startswith("correspondence REPEAT") for x in ctx.broken):
+            ctx.broken.append(("correspondence REPEAT range model vs exp2python", f"{ln}: the emitted loop ran over {got}, the model says {m}"))
+        if F.run(f, a) != enc(sp) and not any(x[0].startswith("reference disagreement") for x in ctx.broken):
+            ctx.broken.append(("reference disagreement (vlib/func_gen_py18.run vs Spec.Body.repeatValues)", f"{ln}: {F.run(f, a)} vs {sp}"))
+    ctx.cov["correspondence"]["repeat-range"] = {"probes": len(lines)}
+
+
+def run_functions(ctx, b, only=None, only_args=None, exe=None):
+    quick = ctx.tier == "quick"
+    if only is not None:
+        funcs = [only]
+    else:
+        funcs = F.fixed_functions() + [F.gen_function(ctx.rng, i) for i in range(120 if quick else 1500)]
+    args_of = {id(f): (only_args if (only is not None and only_args) else F.arguments(ctx.rng, f, 6)) for f in funcs}
+
+    def evaluate(fs):
+        with ThreadPoolExecutor(max_workers=14) as ex:
+            impls = list(ex.map(lambda f: run_func_impl(b, ctx.work, f, args_of[id(f)]), fs))
+        return [(func_oracle(f, args_of[id(f)], im), im) for f, im in zip(fs, impls)]
+    res = evaluate(funcs)
+    if exe is not None and only is None:
+        range_correspondence(ctx, exe, funcs, args_of, res)
+    done, unclassified = set(), 0
+    for f, (o, im) in zip(funcs, res):
+        ctx.count(1, key="func:" + f.express())
+        ctx.hist("verdict", "func:" + (o[0] if o else "mirror"))
+        for s in F.walk(f.body):
+            ctx.hist("statements", s[0])
+        if not o:
+            continue
+        k0 = func_class(o, f)
+        classed = k0 in FCLASSES.values()
+        if k0 in done or (not classed and unclassified >= 4):
+            continue
+        if not classed:
+            unclassified += 1
+        cur, cur_o = f, o
+        changed = True
+        while changed:
+            changed = False
+            for cand in func_candidates(cur):
+                if not func_valid(cand):
+                    continue
+                args_of[id(cand)] = args_of[id(f)]
+                r = evaluate([cand])[0][0]
+                if r and r[0] == o[0] and (func_class(r, cand) == k0 if classed else func_class(r, cand) not in FCLASSES.values()):
+                    cur, cur_o, changed = cand, r, True
+                    break
+        k = func_class(cur_o, cur)
+        done.add(k0); done.add(k)
+        ctx.violation(k, cur_o[1], {"function": func_to_obj(cur), "args": args_of[id(f)], "schema": F.Module("m_" + cur.name, [cur]).express(),
+                                    "how": "run the scratch exp2python on the schema, import the module against the bundled runtime, call the function; "
+                                           "the reference is vlib/func_gen_py18.run"})
+    ctx.cov["correspondence"]["functions"] = {"functions": len(funcs), "calls_each": 6, "property_failures": sum(1 for o, _ in res if o)}
+
+
+def func_to_obj(f):
+    return {"name": f.name, "params": f.params, "locals": f.locals, "body": f.body}
+
+
+def _deep(t):
+    if isinstance(t, list):
+        # statement lists stay lists; statement / expression tuples were serialised as lists whose first item is a string tag
+        if t and isinstance(t[0], str) and t[0] in ("assign", "if", "for", "while", "until", "skip", "escape", "case", "begin", "return",
+                                                    "i", "t", "f", "a", "s", "u", "b"):
+            return tuple(_deep(x) for x in t)
+        return [_deep(x) for x in t]
+    return t
+
+
+def func_from_obj(o):
+    locs = [(n, _deep(i) if i is not None else None) for n, i in o["locals"]]
+    body = _deep(o["body"])
+    fix = lambda s: s
+    return F.Func(o["name"], list(o["params"]), locs, body)
